@@ -179,11 +179,13 @@ theorem shootLoop_ghost (w : World Req Resp) (source : Val) (scName : String) :
     ∀ (steps : List (Step ReqDef)) (rv : List (String × Val)) (g : GState Req) (b : Bool) (g' : GState Req)
       (R : List StepRec),
       shootLoop w source scName steps rv g = some (b, g') → rv = rvOf R →
-      ∃ R' : List StepRec, g'.recs = g.recs ++ R' ∧ g'.seen = g.seen ++ expSeen source R R'
+      ∃ R' : List StepRec, g'.recs = g.recs ++ R' ∧ g'.seen = g.seen ++ expSeen source R R' ∧
+        R'.map (·.name) = (steps.take R'.length).map (·.req.name) ∧
+        (∀ r ∈ R'.dropLast, r.post.isSome) ∧ (b = true → R'.length = steps.length ∧ ∀ r ∈ R', r.post.isSome)
   | [], rv, g, b, g', R, h, _ => by
     simp only [shootLoop] at h
     cases h
-    exact ⟨[], by simp, by simp [expSeen]⟩
+    exact ⟨[], by simp, by simp [expSeen], by simp, by simp, by simp⟩
   | st :: rest, rv, g, b, g', R, h, hrv => by
     simp only [shootLoop] at h
     split at h
@@ -191,9 +193,10 @@ theorem shootLoop_ghost (w : World Req Resp) (source : Val) (scName : String) :
     · rename_i rv1 g1 hstep
       cases h
       rcases shootStep_ghost w source scName st rv g false rv1 g' hstep with ⟨_, hs, hr⟩ | ⟨pv, hs, hrest⟩
-      · exact ⟨[], by simp [hr], by simp [hs, expSeen]⟩
+      · exact ⟨[], by simp [hr], by simp [hs, expSeen], by simp, by simp, by simp⟩
       · rcases hrest with ⟨_, hr⟩ | ⟨hb, _⟩
-        · exact ⟨[{ name := st.req.name, pre := pv, post := none }], hr, by simp [hs, expSeen, hrv]⟩
+        · exact ⟨[{ name := st.req.name, pre := pv, post := none }], hr, by simp [hs, expSeen, hrv], by simp, by simp,
+            by simp⟩
         · cases hb
     · rename_i rv1 g1 hstep
       rcases shootStep_ghost w source scName st rv g true rv1 g1 hstep with ⟨hb, _, _⟩ | ⟨pv, hs, hrest⟩
@@ -202,8 +205,44 @@ theorem shootLoop_ghost (w : World Req Resp) (source : Val) (scName : String) :
         · cases hb
         · let r : StepRec := { name := st.req.name, pre := pv, post := some postv }
           have hrv1' : rv1 = rvOf (R ++ [r]) := by rw [rvOf_snoc, ← hrv]; exact hrv1
-          obtain ⟨R', hR', hS'⟩ := shootLoop_ghost w source scName rest rv1 g1 b g' (R ++ [r]) h hrv1'
-          refine ⟨r :: R', by simp [hR', hr, r], ?_⟩
-          simp [hS', hs, expSeen, hrv, r]
+          obtain ⟨R', hR', hS', hN', hP', hB'⟩ := shootLoop_ghost w source scName rest rv1 g1 b g' (R ++ [r]) h hrv1'
+          refine ⟨r :: R', by simp [hR', hr, r], ?_, ?_, ?_, ?_⟩
+          · simp [hS', hs, expSeen, hrv, r]
+          · simp [hN', r]
+          · intro x hx
+            cases R' with
+            | nil => simp at hx
+            | cons y ys =>
+              rw [List.dropLast_cons_cons] at hx
+              rcases List.mem_cons.mp hx with e | e
+              · subst e; rfl
+              · exact hP' x e
+          · intro hb
+            obtain ⟨hl, hall⟩ := hB' hb
+            refine ⟨by simp [hl], ?_⟩
+            intro x hx
+            rcases List.mem_cons.mp hx with e | e
+            · subst e; rfl
+            · exact hall x e
+
+/-- the record that `request.<n>` shows: the LAST executed step of that name -/
+def lastRec (n : String) (R : List StepRec) : Option StepRec := R.reverse.find? (·.name == n)
+
+theorem getKey_rvOf_rev (n : String) : ∀ (L : List StepRec),
+    getKey n (rvOf L.reverse) = (L.find? (·.name == n)).map recVal
+  | [] => by simp [rvOf, getKey]
+  | r :: L => by
+    rw [List.reverse_cons, rvOf_snoc, List.find?_cons]
+    by_cases h : r.name == n
+    · have e : r.name = n := by simpa using h
+      rw [h]
+      subst e
+      simp [getKey_setKey_same]
+    · have hf : (r.name == n) = false := by simpa using h
+      rw [hf, getKey_setKey_other r.name n _ hf, getKey_rvOf_rev n L]
+
+theorem getKey_rvOf (n : String) (R : List StepRec) : getKey n (rvOf R) = (lastRec n R).map recVal := by
+  have := getKey_rvOf_rev n R.reverse
+  rwa [List.reverse_reverse] at this
 
 end Pandora.Proofs.C15
